@@ -130,8 +130,28 @@ func (in *Inst) reader() {
 	}
 }
 
+type runKey struct{}
+
+// RunValue is the value the context given to StartAll carries (and the
+// context the instance was constructed with does not): a task request is made
+// on behalf of the run, so its context must carry it, wherever the task sits.
+const RunValue = "verif-run"
+
+// RunContext is the context handed to StartAll: derived from the instance's
+// context (so Cancel reaches it) plus the run value.
+func (in *Inst) RunContext() context.Context {
+	return context.WithValue(in.Ctx, runKey{}, RunValue)
+}
+
+// CarriesRun reports whether a task request's context descends from the
+// context the instance was started with.
+func CarriesRun(tt bpmn.TaskTrace) bool {
+	c := tt.Context()
+	return c != nil && c.Value(runKey{}) == RunValue
+}
+
 // StartAll starts the instance (all start events).
-func (in *Inst) StartAll() error { return in.P.StartAll(in.Ctx) }
+func (in *Inst) StartAll() error { return in.P.StartAll(in.RunContext()) }
 
 // Quiesce waits for the all-parked fixpoint.
 func (in *Inst) Quiesce() ([]quiesce.G, error) { return in.Tr.Wait(0) }
